@@ -75,15 +75,16 @@ fn one(src: &str, stream: &str) -> Option<Case> {
     if before.contains("true (its") { c.tags.push("logic-assertion".into()); }
     if before.contains("(c (") { c.tags.push("named-constraint".into()); }
     c.tags.push(if f1.trim_end() == src.trim_end() { "already-formatted".into() } else { "reformatted".into() });
-    // hypothesis coverage of `parse_format_partial` (roundTrips): no operand of equal precedence on the regrouping side
+    // feature coverage: an operand of equal precedence on the side associativity does not favour (the shapes of the
+    // parenthesisation defect repaired in 6b01e1a; kept in the streams as regression inputs)
     let mut slots: Vec<&rooc::PreExp> = vec![&pm.objective().rhs];
     for k in pm.constraints() { slots.push(&k.lhs); slots.push(&k.rhs); }
-    c.tags.push(if slots.iter().all(|e| round_trips(e)) { "in-region:parse_format_partial".into() } else { "outside-region:parse_format_partial".into() });
+    c.tags.push(if slots.iter().all(|e| round_trips(e)) { "no-equal-prec-regroup-operand".into() } else { "equal-prec-regroup-operand".into() });
     c.nontrivial = before.contains("(bin ") || before.contains("(un ");
     Some(c)
 }
 
-/// mirror of the Lean predicate `roundTrips` (tagging only): the printer emits every parenthesis the parser needs
+/// tagging only: no operand of equal precedence that the parser would regroup without parentheses
 fn round_trips(e: &rooc::PreExp) -> bool {
     use rooc::PreExp::*;
     match e {
